@@ -417,7 +417,7 @@ def other_case(draw, tier):
     k = draw(st.integers(0, 5))
     if kind == 'e8m0mxfp':
         e = draw(st.integers(-130, 130))
-        x = draw(st.sampled_from([2.0 ** max(-1000, min(1000, e)), 2.0 ** max(-1000, min(1000, e)) * 1.5, 3.0, 0.0, -1.0, math.inf, math.nan, 2.0 ** -127, 2.0 ** 127, 2.0 ** 128, 2.0 ** -128,
+        x = draw(st.sampled_from([2.0 ** max(-1000, min(1000, e)), 2.0 ** max(-1000, min(1000, e)) * 1.5, 3.0, 0.0, -1.0, -(2.0 ** max(-127, min(127, e))), -0.0, -math.inf, math.inf, math.nan, 2.0 ** -127, 2.0 ** 127, 2.0 ** 128, 2.0 ** -128,
                                   math.nextafter(2.0 ** max(-100, min(100, e)), math.inf)]))
     elif kind == 'mxint':
         q = draw(st.integers(-140, 140))
@@ -533,7 +533,7 @@ SUBCHECKS = [
                              'under both overflow modes; bfloat: all 65536 codes in thorough, 38 blocks of 256 in quick'),
     Sub('C11.encode_all_half', run_encode_half, enum=enum_encode,
         enum_exhaustive_note='all 65536 half-precision bit patterns x 7 formats x mxfp_overflow in {saturate, overflow} (both tiers)'),
-    Sub('C11.encode_float64_path', run_f64, strategy=f64_case, examples={'quick': 10000, 'thorough': 200000}, ambient=('bytealigned',)),
-    Sub('C11.e8m0_mxint_bfloat', run_other, strategy=other_case, examples={'quick': 8000, 'thorough': 100000}, ambient=('bytealigned',)),
+    Sub('C11.encode_float64_path', run_f64, strategy=f64_case, examples={'quick': 10000, 'thorough': 200000}, ambient=('bytealigned', 'lsb0')),
+    Sub('C11.e8m0_mxint_bfloat', run_other, strategy=other_case, examples={'quick': 8000, 'thorough': 100000}, ambient=('bytealigned', 'lsb0')),
     Sub('C11.scaled', run_scaled, strategy=scaled_case, examples={'quick': 6000, 'thorough': 80000}, ambient=('bytealigned',)),
 ]
